@@ -600,6 +600,10 @@ func runC10(c *Ctx) {
 		}
 	}
 	r.Floor("R10.4", "Table implementers in the module", len(impls), 6)
+	// wrappers of different kinds keep their per-cell measurements side by side in the cells' property store: one
+	// kind's set must leave the other kind's value alone (C12's R12.1/R12.2)
+	r.Rule("R10.5", "per-cell measurements of differently wrapped renderers coexist in the property store")
+	importPremises(c, "R10.5", "property-store premise ", "nesting or re-wrapping would drop the other wrapper's measurements", func(o *Ob) bool { return o.Rule == "R12.1" || o.Rule == "R12.2" }, func() { runC12(c) })
 
 	// R10.1
 	nsites := 0
